@@ -53,6 +53,9 @@ type FuncSpec struct {
 	Replay    ast.Expr          // call to a replay builder (verif-tagged Go function) with entry-state arguments
 	ReplayText string
 	ReplayPost ast.Expr // like Replay, arguments evaluated in the post state (for post obligations)
+	Implementers []string // iface blocks: runtime types whose method is verified against this contract
+	ImplOf    *FuncSpec   // synthesized spec of an implementer check: the interface contract it is checked against
+	ImplType  string
 }
 
 type GhostLocal struct {
@@ -67,6 +70,7 @@ type GhostSet struct {
 	Callee  string
 	Ord     int
 	Names   []string
+	Targets []ast.Expr // nil: ghost global/local Names[i]; else the ghost field expression x.$g
 	Exprs   []ast.Expr
 }
 
@@ -98,6 +102,14 @@ type Specs struct {
 	GhostVars map[string]string
 	GhostPkg  map[string]string // package (directory name) whose scope resolves the ghost variable's type
 	GhostLocal map[string]bool
+	Macros     map[string]*Macro
+	SpecFns    map[string]*Macro // recursive integer specification functions (unfolded once per occurrence)
+}
+
+// Macro: a named specification predicate/term, `macro name(a, b) = expr` (call by value).
+type Macro struct {
+	Params []string
+	Body   ast.Expr
 }
 
 var propTagRe = regexp.MustCompile(`\[((?:C\d+)(?:\s*,\s*C\d+)*)\]\s*$`)
@@ -250,7 +262,7 @@ func mkClause(text string) (Clause, error) {
 
 // LoadSpecs reads //@ blocks from every zz_verif*.go file under the repo and *.spec under extern dir.
 func LoadSpecs(repo string, externDir string) (*Specs, error) {
-	sp := &Specs{Funcs: map[string]*FuncSpec{}, Loops: map[string]*LoopSpec{}, Types: map[string]*TypeSpec{}, Ifaces: map[string]*FuncSpec{}, GhostVars: map[string]string{}, GhostPkg: map[string]string{}, GhostLocal: map[string]bool{}}
+	sp := &Specs{Funcs: map[string]*FuncSpec{}, Loops: map[string]*LoopSpec{}, Types: map[string]*TypeSpec{}, Ifaces: map[string]*FuncSpec{}, GhostVars: map[string]string{}, GhostPkg: map[string]string{}, GhostLocal: map[string]bool{}, Macros: map[string]*Macro{}, SpecFns: map[string]*Macro{}}
 	var files []string
 	for _, pk := range repoPkgs {
 		m, _ := filepath.Glob(filepath.Join(repo, pk, "zz_verif*.go"))
@@ -453,14 +465,25 @@ func (sp *Specs) parseFile(path string, extern bool) error {
 					continue
 				}
 				eq := indexTop(as, "=")
-				if eq < 0 || !strings.HasPrefix(as, "$") {
+				if eq < 0 || !(strings.HasPrefix(as, "$") || strings.Contains(as[:eq], ".$")) {
 					return fail(fmt.Errorf("ghost assignment %q", as))
 				}
 				e, err := parseSpecExpr(strings.TrimSpace(as[eq+1:]))
 				if err != nil {
 					return fail(err)
 				}
-				gs.Names = append(gs.Names, strings.TrimSpace(as[1:eq]))
+				if strings.HasPrefix(as, "$") {
+					gs.Names = append(gs.Names, strings.TrimSpace(as[1:eq]))
+					gs.Targets = append(gs.Targets, nil)
+				} else {
+					// x.$g = e: a scalar ghost field of an object
+					te, err := parseSpecExpr(strings.TrimSpace(as[:eq]))
+					if err != nil {
+						return fail(err)
+					}
+					gs.Names = append(gs.Names, strings.TrimSpace(as[:eq]))
+					gs.Targets = append(gs.Targets, te)
+				}
 				gs.Exprs = append(gs.Exprs, e)
 			}
 			curF.GhostSets = append(curF.GhostSets, gs)
@@ -572,6 +595,37 @@ func (sp *Specs) parseFile(path string, extern bool) error {
 				return fail(fmt.Errorf("escapes outside func block"))
 			}
 			curF.Escapes = append(curF.Escapes, strings.Fields(strings.ReplaceAll(rest, ",", " "))...)
+		case "implementers":
+			if curF == nil || !curF.Iface {
+				return fail(fmt.Errorf("implementers outside iface block"))
+			}
+			for _, t := range strings.Split(rest, ",") {
+				if t = strings.TrimSpace(t); t != "" {
+					curF.Implementers = append(curF.Implementers, t)
+				}
+			}
+		case "macro", "specfn":
+			eq := indexTop(rest, "=")
+			lp := strings.Index(rest, "(")
+			rp := strings.Index(rest, ")")
+			if eq < 0 || lp < 0 || rp < lp || rp > eq {
+				return fail(fmt.Errorf("macro name(params) = expr"))
+			}
+			body, err := parseSpecExpr(strings.TrimSpace(rest[eq+1:]))
+			if err != nil {
+				return fail(err)
+			}
+			m := &Macro{Body: body}
+			for _, prm := range strings.Split(rest[lp+1:rp], ",") {
+				if prm = strings.TrimSpace(prm); prm != "" {
+					m.Params = append(m.Params, prm)
+				}
+			}
+			if word == "specfn" {
+				sp.SpecFns[strings.TrimSpace(rest[:lp])] = m
+			} else {
+				sp.Macros[strings.TrimSpace(rest[:lp])] = m
+			}
 		case "ghostvar":
 			fs := strings.Fields(rest)
 			if len(fs) != 2 {
